@@ -50,6 +50,7 @@ type schedCfg struct {
 	unloadRate  int // 1/n of clients are explicit unloads
 	cancelRate  int
 	optVariants bool
+	mmapAll     bool
 	burst       bool
 	slowClose   bool
 }
@@ -149,6 +150,7 @@ func drawSchedCfg(tier string) schedCfg {
 	c.unloadRate = []int{0, 6, 3}[d("unload", 3)]
 	c.cancelRate = []int{0, 5, 3}[d("cancel", 3)]
 	c.optVariants = d("optvar", 2) == 0
+	c.mmapAll = d("mmap-all", 3) == 0
 	c.burst = d("burst", 3) == 0
 	c.slowClose = d("slowclose", 2) == 0
 	if d("faultfree", 5) == 0 {
@@ -664,7 +666,16 @@ func (w *schedWorld) randomWorkload(sim *verifsim.Sim) {
 			case 3:
 				r.opts.NumCtx = 1024
 				r.opts.NumGPU = 1
+			case 4:
+				// pointer-valued option: every request decodes its own pointer
+				v := true
+				r.opts.UseMMap = &v
 			}
+		}
+		if cfg.mmapAll {
+			// identical value in every request, but a pointer of its own each time
+			v := true
+			r.opts.UseMMap = &v
 		}
 		if cfg.arm == armReuse {
 			forever := api.Duration{Duration: time.Duration(math.MaxInt64)}
@@ -734,7 +745,9 @@ func (w *schedWorld) evictIdleScenario(sim *verifsim.Sim) {
 		return r
 	}
 	kas := []time.Duration{30 * time.Minute, 2 * time.Hour, time.Duration(math.MaxInt64), 45 * time.Minute}
-	busy := mk(0, perm[0], kas[d("ka-busy", 4)])
+	// the busy request may itself ask to unload when done (keep_alive=0): still busy, never the victim
+	busyKas := append([]time.Duration{0, 0}, kas...)
+	busy := mk(0, perm[0], busyKas[d("ka-busy", len(busyKas))])
 	idle := mk(1, perm[1], kas[d("ka-idle", 4)])
 	third := mk(2, perm[2], kas[d("ka-third", 4)])
 	busy.holdUntil = func() bool { return third.replies > 0 }
@@ -781,6 +794,12 @@ func (w *schedWorld) stuck(sim *verifsim.Sim, stop verifsim.Stop, phase string) 
 			waiting = append(waiting, fmt.Sprintf("request %d (%s)", r.id, filepath.Base(r.m.ModelPath)))
 		}
 	}
+	if full := w.blockedOnFullEventChannel(sim); full != "" {
+		_, detail := sim.BlockedSummary()
+		w.violate("C02", "event-channel-full", "stuck:event-channel-full:"+full, "scheduler stuck during %s (%s) with internal event channel(s) %s full (their capacity is OLLAMA_MAX_QUEUE=%d) and a sender blocked on it while holding runner locks; unanswered: %v\n%s",
+			phase, stop, full, w.cfg.maxQueue, waiting, detail)
+		return
+	}
 	if cyc := sim.LockCycle(); cyc != nil {
 		sig, detail := sim.DeadlockSignature(cyc)
 		w.violate("C02", "deadlock", sig, "scheduler deadlocked during %s (%s); unanswered: %v\n%s", phase, stop, waiting, detail)
@@ -804,6 +823,23 @@ func (w *schedWorld) stuck(sim *verifsim.Sim, stop verifsim.Stop, phase string) 
 	if len(waiting) > 0 {
 		w.violate("C02", "lost-wakeup", "no-reply:"+strings.Join(sortedStrings(repo), "|"), "%s: %d request(s) that were not cancelled never received a reply (%s): %v\n%s", phase, len(waiting), stop, waiting, detail)
 	}
+}
+
+// blockedOnFullEventChannel: an internal event channel is at capacity and some task is
+// blocked in something other than a lock (i.e. in a channel send): that sender holds
+// whatever locks it holds for ever, so lock waits behind it (including a wait on a lock
+// the waiter itself took and handed to the load goroutine) are consequences, not causes.
+func (w *schedWorld) blockedOnFullEventChannel(sim *verifsim.Sim) string {
+	full := w.fullEventChannels()
+	if full == "" {
+		return ""
+	}
+	for _, t := range sim.Blocked() {
+		if !t.WaitingForLock() {
+			return full
+		}
+	}
+	return ""
 }
 
 // fullEventChannels names the scheduler's internal event channels that are at capacity.
@@ -880,6 +916,11 @@ func (w *schedWorld) drain(sim *verifsim.Sim, res *verifsim.Result) {
 		return
 	}
 	if len(sim.Violations()) > 0 {
+		return
+	}
+	if full := w.blockedOnFullEventChannel(sim); full != "" {
+		_, detail := sim.BlockedSummary()
+		w.violate("C02", "event-channel-full", "stuck:event-channel-full:"+full, "scheduler stuck during drain (%s) with internal event channel(s) %s full (their capacity is OLLAMA_MAX_QUEUE=%d) and a sender blocked on it\n%s", stop, full, w.cfg.maxQueue, detail)
 		return
 	}
 	if cyc := sim.LockCycle(); cyc != nil {
